@@ -3,7 +3,7 @@
    layout sizes) are regenerated from /repo by tools/extractors/c10.py on every run. *)
 From Coq Require Import String.
 From Aelys Require Import Base.Tactics Extracted.HeapConsts Extracted.HeapSites Extracted.HeapEstimator Model.HeapLimit Model.HeapLimitObs
-  Model.HeapAccount Proofs.HeapLimitProofs Proofs.HeapAccountProofs.
+  Model.HeapAccount Model.HeapArgs Extracted.HeapArgs Proofs.HeapLimitProofs Proofs.HeapAccountProofs Proofs.HeapArgsProofs.
 Local Open Scope N_scope.
 
 (* ensure_heap_capacity: for all u64 inputs the answer is Ok exactly when the UNBOUNDED sum fits *)
@@ -234,3 +234,21 @@ Example alloc_sites_all_guarded :
   forallb (fun s => negb (N.eqb (snd s) 0)) string_builders = true /\
   (0 < List.length heap_alloc_sites)%nat /\ (0 < List.length string_builders)%nat.
 Proof. vm_compute. repeat split; try reflexivity; apply Nat.ltb_lt; reflexivity. Qed.
+
+(* ---- from command-line flags to the limit that is in force (parse_vm_args): whatever other flags are on the command line --
+   trusted, allow-* in either spelling, --dev, --allow-caps / --deny-caps, program arguments -- and in whatever order, a
+   successful parse yields the limit of the last max-heap flag (the default without one), never less than the minimum; two
+   command lines with the same max-heap flags configure the same limit *)
+Theorem flags_configure_the_limit : forall (l : list flag) (c : cfg),
+  parse_args l = Some c -> c_max c = last_max l DEFAULT_MAX_HEAP_BYTES.
+Proof. exact parse_args_limit. Qed.
+Theorem only_max_heap_flags_touch_the_limit : forall (l1 l2 : list flag) (c1 c2 : cfg),
+  filter is_max l1 = filter is_max l2 -> parse_args l1 = Some c1 -> parse_args l2 = Some c2 -> c_max c1 = c_max c2.
+Proof. exact parse_args_limit_only_max_heap. Qed.
+Theorem parsed_limit_at_least_minimum : forall (l : list flag) (c : cfg), parse_args l = Some c -> MIN_HEAP_BYTES <= c_max c.
+Proof. exact parse_args_min. Qed.
+(* the table "which flag assigns which field of VmConfig", regenerated from parse.rs / config.rs: among the -ae. keys only
+   max-heap assigns max_heap_bytes; --dev, the caps flags and the trusted-mode block after the loop assign neither
+   max_heap_bytes nor the configuration as a whole *)
+Example flag_writes_as_modelled : args_table_ok = true.
+Proof. exact args_table_as_modelled. Qed.
